@@ -158,3 +158,18 @@ func TestVerifWitness_DQA5(t *testing.T) {
 		t.Fatalf("bitDepthMin() with base %d depth 62 = %d, want a value <= base", lo, got)
 	}
 }
+
+// DQA8 (open): -2^63 is accepted as a field minimum and as a value, but the sign-magnitude storage keeps only 63
+// magnitude bits: the value is stored as "-0" and reads back as 0.
+func TestVerifWitness_DQA8(t *testing.T) {
+	const lo = -9223372036854775808
+	f := MustOpenField(OptFieldTypeInt(lo, 0))
+	defer f.Close()
+	if _, err := f.SetValue(1, lo); err != nil {
+		t.Skipf("the write is rejected (%v): nothing stored wrongly", err)
+	}
+	v, ok, err := f.Value(1)
+	if err != nil || !ok || v != lo {
+		t.Fatalf("SetValue(1, %d) accepted, Value(1) = (%d, exists %v, %v)", lo, v, ok, err)
+	}
+}
